@@ -28,6 +28,7 @@ from __future__ import annotations
 
 import ast
 import contextlib
+import copy
 import dataclasses
 import datetime
 import operator
@@ -475,7 +476,11 @@ def strload(val: str | bytes | bytearray | memoryview) -> PythonValueT:
     # A `bytearray` or a writable `memoryview` isn't hashable, look it up by its content.
     if isinstance(val, (bytearray, memoryview)):
         val = bytes(val)
-    return _strload(val)
+    loaded = _strload(val)
+    # Never hand out the memoised container itself, the caller may mutate it.
+    if isinstance(loaded, (list, dict, set, tuple)):
+        return copy.deepcopy(loaded)
+    return loaded
 
 
 @compat.lru_cache(maxsize=100_000)
